@@ -85,7 +85,7 @@ for p in props:
             where = ('This round, place your edits IN these functions (they are the ones most recently put under scrutiny), one '
                      'edit per function where possible, each edit changing the statements that do the real work there (the '
                      'condition, the loop, the call and its arguments, the error handling), not just a log line:\n  - ' + '\n  - '.join(recent) + '\n')
-        note = ('NOTE: %d harmless edits for this property already exist (three rounds); do NOT repeat these, use DIFFERENT kinds '
+        note = ('NOTE: %d harmless edits for this property already exist (four rounds); do NOT repeat these, use DIFFERENT kinds '
                 'of edit:\n' % len(titles)) + '\n'.join(titles) + '\n' + where + BENIGN_EXTRA + '\n'
         text = head + note + 'Requirements for each change' + tail
     open(os.path.join(out, pid + '.prompt.txt'), 'w').write(text)
